@@ -5,6 +5,13 @@ broken by a crashing task or by an external SIGKILL, idle time-out of every work
 shutdown, shutdown(wait=False), never used, resized up / down) run in a fresh process by
 `harness/realproc/c20_runner.py`, once and k times.
 
+The caller of a lifecycle may KEEP the futures it got (results, task exceptions, PicklingErrors of arguments or
+results that cannot be pickled, the errors of a killed or broken pool) for the rest of the process, over all
+repetitions (`"futs"`, `"keep"`), and tasks whose arguments are far larger than a pipe buffer may be queued
+behind busy workers when the pool is torn down (`"big"`: the feeder thread is then blocked in the middle of
+`send_bytes`), by a SIGKILLed worker, `shutdown(kill_workers=True)`, `get_reusable_executor(kill_workers=True)`
+(`rekill`) or a graceful shutdown.
+
 * oracle (from the statement): after the sequence has completed — every executor shut down or broken and
   replaced, and released — open descriptors, live threads, child processes (zombies included) and named
   semaphores are the same after k repetitions as after one; no child process and no thread of a completed
@@ -61,12 +68,17 @@ class Part:
     lean_modules = ["LokyModel.Props.C20Ledger"]
     driver = "trackertree_driver"
     budget = {"quick": 170, "thorough": 1700}
-    n_cases = {"quick": 6, "thorough": 90}
+    n_cases = {"quick": 14, "thorough": 110}
     search_cases = {"quick": 6, "thorough": 20}
     reps = {"quick": 5, "thorough": 10}
     rule = ("sequences of 1-4 executor lifecycles (clean / context manager / nested task / kill_workers with busy "
             "workers / broken by os._exit task or external SIGKILL / idle time-out of all workers / released without "
-            "shutdown / shutdown(wait=False) / never used / reusable resized up or down; 1-3 workers), each sequence "
+            "shutdown / shutdown(wait=False) / never used / reusable resized up or down / reusable replaced with "
+            "kill_workers=True while busy; 1-3 workers; 0-3 extra tasks per lifecycle ending in a result, a task exception, "
+            "a PicklingError of unsendable arguments or of an unpicklable result, whose futures -- with those of the tasks "
+            "killed with the pool -- the caller keeps until the end of the process or drops; 0-2 tasks with 4 MiB of "
+            "arguments queued behind busy workers, the feeder thread blocked mid-send, when the pool is killed, broken, "
+            "replaced or gracefully shut down), each sequence "
             "run in a fresh process once and k times (k=5 quick, 10 thorough) after a warm-up that starts the tracker "
             "processes; counts of /proc/self/fd, threading.enumerate(), children incl. zombies, /dev/shm/sem.loky-<pid>-*. "
             "Compared with the Lean ledger at ctor / started / mid / end of every lifecycle of the first run. "
@@ -89,12 +101,29 @@ class Part:
             {"k": k, "seq": [{"kind": "broken", "n": 2, "how": "osexit"}, {"kind": "idle", "n": 2},
                              {"kind": "dropped", "n": 1}]},
             {"k": k, "seq": [{"kind": "resized", "n": 1, "m": 3}, {"kind": "broken", "n": 3, "how": "sigkill"}]},
+            # the caller keeps every kind of future of completed lifecycles
+            {"k": k, "seq": [{"kind": "clean", "n": 1, "futs": ["ok", "exc", "badarg", "badres"], "keep": True},
+                             {"kind": "kill", "n": 2, "busy": 2, "futs": ["badarg"], "keep": True}]},
+            {"k": k, "seq": [{"kind": "broken", "n": 2, "how": "sigkill", "futs": ["badarg", "exc"], "keep": True},
+                             {"kind": "dropped", "n": 1, "futs": ["badarg", "badres"], "keep": True},
+                             {"kind": "idle", "n": 1, "futs": ["badarg", "ok"], "keep": True}]},
+            # oversized tasks behind busy workers, the pool torn down by each route (and gracefully, for contrast)
+            {"k": k, "seq": [{"kind": "broken", "n": 1, "how": "sigkill", "big": 1},
+                             {"kind": "kill", "n": 1, "busy": 1, "big": 1, "keep": True}]},
+            {"k": k, "seq": [{"kind": "rekill", "n": 1, "big": 1}, {"kind": "clean", "n": 1, "big": 1, "keep": True},
+                             {"kind": "rekill", "n": 2, "big": 2, "futs": ["badarg"], "keep": True}]},
         ]
 
     def gen_life(self, rng):
-        kind = rng.choice(["clean", "clean", "kill", "broken", "broken", "idle", "dropped", "dropped", "unused", "resized"])
+        kind = rng.choice(["clean", "clean", "kill", "broken", "broken", "idle", "dropped", "dropped", "unused", "resized",
+                           "rekill"])
         n = rng.choice([1, 2, 2, 3])
         spec = {"kind": kind, "n": n}
+        # what the caller submits besides and keeps afterwards
+        if kind != "unused" and rng.random() < 0.6:
+            spec["futs"] = [rng.choice(["ok", "exc", "badarg", "badarg", "badres"]) for _ in range(rng.choice([1, 1, 2, 3]))]
+        if kind != "unused" and rng.random() < 0.6:
+            spec["keep"] = True
         if kind == "clean":
             v = rng.choice(["plain", "ctx", "nested"])
             if v != "plain":
@@ -103,6 +132,12 @@ class Part:
             spec["busy"] = rng.choice([0, n])
         elif kind == "broken":
             spec["how"] = rng.choice(["osexit", "sigkill"])
+        # oversized tasks queued behind busy workers when the pool is torn down
+        if (kind in ("kill", "rekill", "clean") or spec.get("how") == "sigkill") and not spec.get("ctx") \
+                and not spec.get("nested") and rng.random() < 0.4:
+            spec["big"] = rng.choice([1, 1, 2])
+            if kind == "kill":
+                spec["busy"] = n
         elif kind == "dropped":
             spec["nowait"] = rng.random() < 0.5
         elif kind == "resized":
@@ -119,6 +154,8 @@ class Part:
         m = spec.get("m", 0)
         if kind == "broken":
             m = 1
+        if kind == "rekill":
+            kind = "kill"          # same ledger operations: the replaced executor is shut down with kill_workers=True
         return f"ledger {kind} {spec.get('n', 1)} {m} {l0}"
 
     def run_model(self, cases, corr):
@@ -146,6 +183,8 @@ class Part:
             return ["ctor", "end"]
         if k == "resized":
             return ["started", "mid", "end"]
+        if k == "rekill":
+            return ["started", "end"]
         if k == "idle":
             return ["ctor", "mid", "end"]
         if k == "broken":
@@ -207,7 +246,7 @@ class Part:
             return ""
 
     def nontrivial(self, case, raw):
-        return any(s["kind"] != "clean" or s.get("nested") for s in case["seq"])
+        return any(s["kind"] != "clean" or s.get("nested") or s.get("keep") or s.get("big") for s in case["seq"])
 
     def classify(self, case, raw):
         ks = [f"len={len(case['seq'])}"]
@@ -216,6 +255,15 @@ class Part:
                       + ("/ctx" if s.get("ctx") else "") + ("/nowait" if s.get("nowait") else "")
                       + ("/busy" if s.get("busy") else ""))
             ks.append(f"workers={s.get('n')}")
+            if s.get("keep"):
+                ks.append("futures-kept")
+                ks += sorted({"kept=" + f for f in s.get("futs", [])})
+                if s["kind"] in ("kill", "broken", "rekill"):
+                    ks.append("kept=" + s["kind"] + "-pool-errors")
+            elif s.get("futs"):
+                ks.append("futures-dropped")
+            if s.get("big"):
+                ks.append("oversized-queued/" + s["kind"] + ("/" + s["how"] if s.get("how") else ""))
         return ks
 
     def shrink_candidates(self, case):
@@ -226,6 +274,11 @@ class Part:
         for i, s in enumerate(seq):
             if s.get("n", 1) > 1 and s["kind"] != "resized":
                 yield {"k": case["k"], "seq": seq[:i] + [dict(s, n=1, **({"busy": 1} if s.get("busy") else {}))] + seq[i + 1:]}
+        for i, s in enumerate(seq):
+            for j in range(len(s.get("futs", []))):
+                yield {"k": case["k"], "seq": seq[:i] + [dict(s, futs=s["futs"][:j] + s["futs"][j + 1:])] + seq[i + 1:]}
+            if s.get("big", 0) > 1:
+                yield {"k": case["k"], "seq": seq[:i] + [dict(s, big=1)] + seq[i + 1:]}
 
     # ------------------------------------------------------------------ engine
     def impl(self, case):
@@ -293,7 +346,7 @@ class Part:
     def shrink(self, f):
         cur = f
         for _ in range(4):
-            for cand in list(self.shrink_candidates(cur["input"]))[:5]:
+            for cand in list(self.shrink_candidates(cur["input"]))[:8]:
                 try:
                     raw = self.impl(cand)
                 except C.Infra:
